@@ -603,16 +603,20 @@ theorem error_is_final_partial (p : Params) (s : S) (e : Ev) (h : s.st = .error)
     (step p s e).st = .error ∧ (step p s e).acts.length = s.acts.length ∧ (step p s e).pendingExisting = false :=
   error_final_step p s e h hpe
 
-/-- STILL FALSE without that proviso: the timer is armed although pause-before left the task IDLE; if
-    it expires between `resume` and the delivery of the re-queued start, the task is failed by its timeout
-    and then run by `_run_existing` (ERROR → RUNNING). -/
-theorem error_is_final_full_fails :
-    ¬ (∀ (p : Params) (evs : List Ev) (e : Ev), p.wellTyped = true → (run p init evs).st = .error →
-        (step p (run p init evs) e).st = .error) := by
-  intro h
-  have := h { pauseBefore := .bool true, timeout := .int 2 } [.startNew, .resume, .tick 2, .fire 0] .startExisting
-    (by decide) (by decide)
-  revert this; decide
+/-- "a task that ended ERROR stays ERROR", full strength (true since repo_patches/20; was
+    `error_is_final_full_fails`): no event - stale continue / complete job, timer, late result, resume,
+    and in particular the start request that `resume` re-queued for the task while it was still IDLE -
+    changes the state of an ERROR task or starts another action. -/
+theorem error_is_final (p : Params) (s : S) (e : Ev) (h : s.st = .error) :
+    (step p s e).st = .error ∧ (step p s e).acts.length = s.acts.length := error_final_step_full p s e h
+
+/-- the former witness: the timer is armed although pause-before left the task IDLE; it expires between
+    `resume` and the delivery of the re-queued start: the task is failed by its timeout and the stale
+    start request no longer runs it (it used to: ERROR → RUNNING). -/
+example : (run { pauseBefore := .bool true, timeout := .int 2 } init
+    [.startNew, .resume, .tick 2, .fire 0, .startExisting]).st = .error
+  ∧ (run { pauseBefore := .bool true, timeout := .int 2 } init
+    [.startNew, .resume, .tick 2, .fire 0, .startExisting]).acts.length = 0 := by decide
 
 /-- Trace-level "ends SUCCESS iff its last attempt counts as success" is STILL FALSE with a timeout timer
     (the witness of the unfixed code — two concurrent attempts — is gone, this one remains): `_complete_task`
